@@ -64,6 +64,8 @@ type World struct {
 	Reps  []*Replica
 	Stats *Stats
 	cur   *Replica
+	// IdleWall is the wall clock read when no replica is acting (adversary writes)
+	IdleWall int64
 
 	// simulated process table: every incarnation of a replica is a process
 	pidMu   sync.Mutex
@@ -134,6 +136,7 @@ func NewWorld(seed uint64, keepLog bool) *World {
 		Log:   &EventLog{Keep: keepLog},
 		Stats: &Stats{Faults: map[string]int{}, Probes: map[string]int{}},
 		live:  map[int]bool{},
+		IdleWall: 1_700_000_000,
 	}
 	_ = os.MkdirAll(w.Root, 0o755)
 	w.Net = InstallNet()
@@ -147,7 +150,7 @@ func NewWorld(seed uint64, keepLog bool) *World {
 		if w.cur != nil {
 			return time.Unix(w.cur.Wall, 0)
 		}
-		return time.Unix(1_700_000_000, 0)
+		return time.Unix(w.IdleWall, 0)
 	})
 	return w
 }
